@@ -129,8 +129,11 @@ func (e *Engine) verifyFuncFor(key string, budget int, prop string) (res *FuncRe
 			if cl.Kind == "invariant" {
 				seen[cl.Loop] = true
 				if cl.Loop >= len(fr.loops) {
-					res.Error = fmt.Sprintf("anchor-missing: %s has %d loops, contract line %d refers to loop %d", key, len(fr.loops), cl.Line, cl.Loop)
-					return
+					// the loop the clause was written for is gone (e.g. a retry loop turned into a single attempt): the
+					// clause is dropped with a note - whatever it was needed for then fails as an ordinary obligation
+					// instead of leaving the function undecided
+					x.c.note(fmt.Sprintf("contract line %d refers to loop %d of %s, which has %d loops: clause ignored", cl.Line, cl.Loop, key, len(fr.loops)))
+					continue
 				}
 			}
 		}
